@@ -995,6 +995,13 @@ def run_utils(ctx, impl, rng, quick, dmax):
         r_, c = rng.randint(1, dmax), rng.randint(1, dmax)
         m = rsm(rng, r_, c, nonneg=True)
         m['coo'] = [[i, j, max(1, int(v))] for i, j, v in m['coo']]
+        if rng.random() < 0.4:
+            # explicitly stored zeros (a count edited in place, a matrix built from (data, indices, indptr)): a word with a stored
+            # zero count in a document does not occur in it
+            occupied = {(i, j) for i, j, _ in m['coo']}
+            free = [(i, j) for i in range(r_) for j in range(c) if (i, j) not in occupied]
+            for (i, j) in rng.sample(free, min(len(free), rng.randint(1, 3))):
+                m['coo'].append([i, j, 0])
         tab = [(Fraction(r_, f), Fraction(math.log(r_ / f))) for f in range(1, r_ + 1)]
         cs.append(dict(kind='tfidf', m=m))
         ex.append('rm (dense (get_tfidf %s %s))' % (csqrt(tab), csm(m)))
